@@ -251,6 +251,35 @@ pub fn ascii(u: &mut U, alphabet: &[u8], min: usize, max: usize) -> String {
 }
 
 /// Valid UTF-8 string with some multi-byte characters, at most `max` *bytes*.
+/// A long string (lo..hi bytes) for the chunked readers: ASCII or, half of the time, multi-byte
+/// characters at every alignment (an ASCII shift of 0..3 bytes, then a cycle of 2-, 3- and 4-byte
+/// characters), so that characters straddle every chunk boundary.
+pub fn long_utf8(u: &mut U, lo: usize, hi: usize, ascii: char) -> String {
+    let n = gen::range_usize(u, lo, hi);
+    let sel = gen::byte(u);
+    let mut s = String::with_capacity(n + 4);
+    if sel & 1 == 0 {
+        while s.len() < n {
+            s.push(ascii);
+        }
+        return s;
+    }
+    for _ in 0..((sel >> 1) % 4) {
+        s.push('y');
+    }
+    let fills: &[&str] = match (sel >> 3) % 3 {
+        0 => &["é"],
+        1 => &["é", "€", "😀"],
+        _ => &["漢"],
+    };
+    let mut i = 0;
+    while s.len() < n {
+        s.push_str(fills[i % fills.len()]);
+        i += 1;
+    }
+    s
+}
+
 pub fn utf8(u: &mut U, max: usize) -> String {
     const CH: [&str; 12] = ["a", "Z", "0", " ", "/", ":", ".", "é", "ß", "€", "漢", "😀"];
     let n = small_len(u, max);
